@@ -82,3 +82,58 @@ theorem doubleOld_alias_witness :
 
 end CurvePoint
 end XC.C52
+
+namespace XC.C52
+
+/-- **Add(a, a) is Double(a)** for every Jacobian representative that is not infinity: the two
+    normalised points coincide, so `Add` takes its doubling branch (the doc comment "fails for a
+    equal to b" is stale). -/
+theorem CurvePoint.add_self (a : CurvePoint) (h : a.isInfinity = false) :
+    CurvePoint.add a a = CurvePoint.double a := by
+  unfold CurvePoint.add
+  simp [h]
+
+theorem TwistPoint.add_self (a : TwistPoint) (h : a.isInfinity = false) :
+    TwistPoint.add a a = TwistPoint.double a := by
+  unfold TwistPoint.add
+  simp [h, GFp2.sub, GFp2.isZero]
+
+/-- infinity is the neutral element of `Add`, on either side, for every representative -/
+theorem CurvePoint.add_infinity (a b : CurvePoint) (hb : b.isInfinity = true) (ha : a.isInfinity = false) :
+    CurvePoint.add a b = a ∧ CurvePoint.add b a = a := by
+  unfold CurvePoint.add
+  simp [ha, hb]
+
+theorem TwistPoint.add_infinity (a b : TwistPoint) (hb : b.isInfinity = true) (ha : a.isInfinity = false) :
+    TwistPoint.add a b = a ∧ TwistPoint.add b a = a := by
+  unfold TwistPoint.add
+  simp [ha, hb]
+
+/-- **P + (−P) = ∞** on the Jacobian formulas: same x after normalisation gives h = 0, so the
+    general branch returns z = 0 (the doubling branch would need y ≡ −y, i.e. a point of order 2). -/
+theorem CurvePoint.add_neg (a : CurvePoint) (h : a.isInfinity = false) :
+    (CurvePoint.add a a.neg).isInfinity = true ∨ CurvePoint.add a a.neg = CurvePoint.double a := by
+  unfold CurvePoint.add
+  have hn : a.neg.isInfinity = false := by simpa [CurvePoint.neg, CurvePoint.isInfinity] using h
+  simp only [h, hn, Bool.false_eq_true, ↓reduceIte]
+  simp only [CurvePoint.neg, Int.sub_self, beq_self_eq_true, Bool.true_and]
+  split
+  · right; rfl
+  · left; simp [CurvePoint.isInfinity]
+
+theorem GFp2.sub_self_zero (a : GFp2) : GFp2.sub a a = ⟨0, 0⟩ := by simp [GFp2.sub]
+theorem GFp2.mul_zero_right (a : GFp2) : GFp2.mul a ⟨0, 0⟩ = ⟨0, 0⟩ := by simp [GFp2.mul]
+
+theorem TwistPoint.add_neg (a : TwistPoint) (h : a.isInfinity = false) :
+    (TwistPoint.add a a.neg).isInfinity = true ∨ TwistPoint.add a a.neg = TwistPoint.double a := by
+  unfold TwistPoint.add
+  have hn : a.neg.isInfinity = false := by simpa [TwistPoint.neg, TwistPoint.isInfinity] using h
+  simp only [h, hn, Bool.false_eq_true, ↓reduceIte]
+  simp only [TwistPoint.neg, GFp2.sub_self_zero]
+  have hz : GFp2.isZero ⟨0, 0⟩ = true := by decide
+  simp only [hz, Bool.true_and]
+  split
+  · right; rfl
+  · left; simp [TwistPoint.isInfinity, GFp2.mul_zero_right, hz]
+
+end XC.C52
